@@ -223,7 +223,8 @@ def run_api_singular(seed):
     models = []
     nmodels = rng.randint(2, 3)
     subseeds = [rng.randrange(10 ** 9) for _ in range(nmodels)]
-    if rng.random() < 0.4:
+    force = seed % 3 == 0
+    if force or rng.random() < 0.4:
         subseeds[1] = subseeds[0]      # two models with identical names and equations (a cached analysis must not be shared)
     for k in range(nmodels):
         rng = random.Random(subseeds[k])
@@ -261,6 +262,8 @@ def run_api_singular(seed):
             form = rng.randrange(4)
             ghk = pattern(U, form)
             shape = rng.randrange(8)
+            if force and j == 0:
+                shape = 7      # every third case: twin models whose first equation has a singular point depending on a variable
             if shape == 0:
                 rhs = q(rng.choice([2, 0.5, 3]), d) * ghk
             elif shape == 1:
@@ -276,7 +279,7 @@ def run_api_singular(seed):
                 rhs = ghk * pattern(q(slope2, per_mV) * (V - q(offs2, mV)), rng.randrange(4)) * q(rng.choice([1, 0.3]), d)
             elif shape == 7:
                 # the singular point depends on a parameter that is excluded from the analysis (it stays symbolic)
-                if rng.random() < 0.5:
+                if rng.random() < 0.5 and not force:
                     E = m.add_variable('E%d' % j, mV)
                     m.add_equation(sp.Eq(E, q(offs, mV)))
                     excluded.append(E)
